@@ -3,6 +3,7 @@ package simpledb
 import (
 	"errors"
 	"fmt"
+	"io/fs"
 	"log"
 	"os"
 	"path/filepath"
@@ -36,42 +37,18 @@ func (db *DB) repairCompactions() error {
 		}
 
 		if info.IsDir() && strings.HasPrefix(info.Name(), SSTableCompactionPathPrefix) {
-			err := func() (err error) {
-				metaPath := filepath.Join(p, CompactionFinishedSuccessfulFileName)
-				_, err = os.Stat(metaPath)
-				if err != nil {
-					return err
-				}
-
-				// try to read it, if it's corrupted we would also delete it
-				reader, err := rProto.NewReader(rProto.ReaderPath(metaPath))
-				if err != nil {
-					return err
-				}
-
-				// make sure we always close it, especially when reading malformed metadata
-				defer func(reader rProto.ReaderI) {
-					err = errors.Join(err, reader.Close())
-				}(reader)
-
-				err = reader.Open()
-				if err != nil {
-					return err
-				}
-
-				metadata := &dbproto.CompactionMetadata{}
-				_, err = reader.ReadNext(metadata)
-				if err != nil {
-					return err
-				}
-
+			metadata, err := readCompactionFlag(filepath.Join(p, CompactionFinishedSuccessfulFileName))
+			var ioErr *fs.PathError
+			switch {
+			case err == nil:
+				// only now that nothing can fail anymore: the folder is either finished or deleted, never both
 				compactionsToFinish = append(compactionsToFinish, metadata)
-
-				return nil
-			}()
-
-			if err != nil {
-				// assuming this folder is corrupted, we'll delete it for a later attempt
+			case errors.As(err, &ioErr) && !errors.Is(err, fs.ErrNotExist):
+				// we could not find out whether this compaction had finished (too many open files, a read error):
+				// deleting it now could delete the only copy of records whose input tables are gone already
+				return fmt.Errorf("error while reading the compaction flag in '%s': %w", p, err)
+			default:
+				// no flag, or not a complete one: the compaction did not finish, we'll delete it for a later attempt
 				compactionsToDelete = append(compactionsToDelete, p)
 			}
 		}
@@ -322,4 +299,38 @@ func removeWalFolder(walBasePath string) error {
 	}
 
 	return os.RemoveAll(walBasePath)
+}
+
+// readCompactionFlag reads the metadata a successful compaction leaves in its folder.
+func readCompactionFlag(metaPath string) (metadata *dbproto.CompactionMetadata, err error) {
+	_, err = os.Stat(metaPath)
+	if err != nil {
+		return nil, err
+	}
+
+	reader, err := rProto.NewReader(rProto.ReaderPath(metaPath))
+	if err != nil {
+		return nil, err
+	}
+
+	// make sure we always close it, especially when reading malformed metadata
+	defer func(reader rProto.ReaderI) {
+		err = errors.Join(err, reader.Close())
+		if err != nil {
+			metadata = nil
+		}
+	}(reader)
+
+	err = reader.Open()
+	if err != nil {
+		return nil, err
+	}
+
+	metadata = &dbproto.CompactionMetadata{}
+	_, err = reader.ReadNext(metadata)
+	if err != nil {
+		return nil, err
+	}
+
+	return metadata, nil
 }
